@@ -423,6 +423,11 @@ def events_for(r: random.Random, w: World, P: str) -> None:
             w.sessions[0].setdefault("events", []).append("ISS")
     if P in ("callbacks", "ledger", "logger"):
         add_user_rules(r, w, p_rewrite=0.08, owner=(P == "callbacks"))
+    if P == "logger" and len(w.sessions) >= 2 and r.random() < 0.15:
+        w.probes["SWP"] = {"hooks": [{"kind": "session", "before": True, "times": None}],
+                           "sweep": {"cancel": r.randint(0, 4), "quote": r.random() < 0.6, "buy": r.random() < 0.5}}
+        w.cfg["SWP"] = {"class": "ProbeEvent"}
+        r.choice(w.sessions[1:]).setdefault("events", []).append("SWP")
     if P in ("callbacks", "ledger") and r.random() < 0.08:
         # a user-written circuit breaker: switches matching off from inside an after-fill hook
         w.probes["BRK"] = {"hooks": [{"kind": "execution", "before": False, "times": None},
@@ -438,6 +443,10 @@ def events_for(r: random.Random, w: World, P: str) -> None:
             tgt_s = r.choice(w.sessions)
             if ev not in tgt_s.get("events", []):
                 tgt_s.setdefault("events", []).append(ev)
+
+
+def n_inst_one(w: World, name: str) -> bool:
+    return True
 
 
 def gen_probes(r: random.Random, w: World) -> None:
@@ -490,6 +499,16 @@ def gen_probes(r: random.Random, w: World) -> None:
             spec["alter"] = r.choice([{"f": 1.01}, {"f": 0.97}, {"d": 0.3}, {"f": 1.0}])
         if r.random() < 0.12 and any(h["kind"] == "execution" for h in hooks):
             spec["breaker"] = {"after": r.randint(1, 3), "restore": r.random() < 0.5}
+        trig = [t_ for t_, k_ in (("order_after", ("order", False)), ("execution", ("execution", False)))
+                if any((h["kind"], h["before"]) == k_ and h["times"] is None for h in hooks)]
+        if trig and r.random() < 0.2 and n_inst_one(w, name):
+            have = {(h["kind"], h["before"]) for h in hooks}
+            free = [k_ for k_ in (("order", True), ("cancel", True), ("cancel", False), ("execution", False), ("order", False)) if k_ not in have]
+            if free:
+                k_ = r.choice(free)
+                spec["arm"] = {"trigger": r.choice(trig), "nth": r.randint(1, 6),
+                               "hook": {"kind": k_[0], "before": k_[1],
+                                        "times": None if r.random() < 0.7 else sorted(r.sample(range(total + 2), min(total + 2, r.randint(1, 5))))}}
         w.probes[name] = spec
         w.cfg[name] = {"class": "ProbeEvent"}
         si = r.randrange(len(w.sessions))
